@@ -2077,6 +2077,55 @@ func (p *Prog) LiftGoal(goal func(ssa.Instruction) bool, depth int) func(ssa.Ins
 func (p *Prog) Canon(v ssa.Value) ssa.Value {
 	for depth := 0; depth < 6; depth++ {
 		v = NormCell(v)
+		// a field of a "method object": a record built once by a composite literal whose field
+		// is never assigned again anywhere — reading it yields what the literal stored
+		// (`w := &watch{ctx: ctx, id: id}; go w.run()` — inside run, w.id is id)
+		if u, isU := v.(*ssa.UnOp); isU && u.Op == token.MUL {
+			if fa, isFA := u.X.(*ssa.FieldAddr); isFA {
+				if fv := FieldVar(fa); fv != nil && len(p.fieldStores[fv]) == 1 {
+					st := p.fieldStores[fv][0]
+					sfa, _ := st.Addr.(*ssa.FieldAddr)
+					if sfa != nil {
+						if al, isAl := sfa.X.(*ssa.Alloc); isAl && depth < 5 {
+							if base := p.canonBase(fa.X, depth); base == ssa.Value(al) {
+								v = st.Val
+								continue
+							}
+						}
+					}
+				}
+			}
+			return v
+		}
+		par, ok := v.(*ssa.Parameter)
+		if !ok {
+			return v
+		}
+		f := par.Parent()
+		site, ok := p.SoleCaller(f)
+		if !ok {
+			return v
+		}
+		idx := -1
+		for i, q := range f.Params {
+			if q == par {
+				idx = i
+			}
+		}
+		args := site.Instr.Common().Args
+		if idx < 0 || len(args) != len(f.Params) {
+			return v
+		}
+		v = args[idx]
+	}
+	return v
+}
+
+// canonBase canonicalises the base of a field selection (a receiver parameter of
+// a method with one call site, a local copy) without looking into fields.
+func (p *Prog) canonBase(v ssa.Value, depth int) ssa.Value {
+	for ; depth < 6; depth++ {
+		v = NormCell(v)
 		par, ok := v.(*ssa.Parameter)
 		if !ok {
 			return v
@@ -2872,6 +2921,33 @@ func (p *Prog) GlobalTable(g *ssa.Global) (rows [][]ssa.Value, ok bool) {
 	default:
 		return nil, false
 	}
+	return rowsFromElems(elems, arr)
+}
+
+// LocalTable reads a table of records built as a composite literal in a local
+// array (`for _, e := range [...]struct{…}{{a, b}, {c, d}}`), like GlobalTable.
+func LocalTable(backing *ssa.Alloc) (rows [][]ssa.Value, ok bool) {
+	arr, isArr := backing.Type().Underlying().(*types.Pointer).Elem().Underlying().(*types.Array)
+	if !isArr {
+		return nil, false
+	}
+	var elems []*ssa.IndexAddr
+	for _, ref := range *backing.Referrers() {
+		switch x := ref.(type) {
+		case *ssa.IndexAddr:
+			if _, isK := ConstInt(x.Index); !isK {
+				return nil, false // written or read through a computed index
+			}
+			elems = append(elems, x)
+		case *ssa.UnOp, *ssa.DebugRef, *ssa.Slice:
+		default:
+			return nil, false
+		}
+	}
+	return rowsFromElems(elems, arr)
+}
+
+func rowsFromElems(elems []*ssa.IndexAddr, arr *types.Array) (rows [][]ssa.Value, ok bool) {
 	if arr == nil || len(elems) == 0 {
 		return nil, false
 	}
@@ -2982,11 +3058,13 @@ func (p *Prog) FindTableLoop(f *ssa.Function) *TableLoop {
 		if !ok || ld.Op != token.MUL {
 			return
 		}
+		var rows [][]ssa.Value
 		g, ok := ld.X.(*ssa.Global)
-		if !ok {
-			return
+		if ok {
+			rows, ok = p.GlobalTable(g)
+		} else if al, isAl := ld.X.(*ssa.Alloc); isAl {
+			rows, ok = LocalTable(al)
 		}
-		rows, ok := p.GlobalTable(g)
 		if !ok {
 			return
 		}
@@ -3036,4 +3114,55 @@ func (p *Prog) FindTableLoop(f *ssa.Function) *TableLoop {
 		out = t
 	})
 	return out
+}
+
+// PathsTo enumerates the acyclic paths of blocks from f's entry to target
+// (at most limit; ok is false when there are more).
+func PathsTo(f *ssa.Function, target *ssa.BasicBlock, limit int) (paths [][]*ssa.BasicBlock, ok bool) {
+	if len(f.Blocks) == 0 {
+		return nil, false
+	}
+	ok = true
+	var walk func(b *ssa.BasicBlock, path []*ssa.BasicBlock)
+	walk = func(b *ssa.BasicBlock, path []*ssa.BasicBlock) {
+		if !ok {
+			return
+		}
+		for _, p := range path {
+			if p == b {
+				return
+			}
+		}
+		path = append(append([]*ssa.BasicBlock{}, path...), b)
+		if b == target {
+			if len(paths) >= limit {
+				ok = false
+				return
+			}
+			paths = append(paths, path)
+			return
+		}
+		if !blockReaches(b, target) {
+			return
+		}
+		for _, s := range b.Succs {
+			walk(s, path)
+		}
+	}
+	walk(f.Blocks[0], nil)
+	return paths, ok
+}
+
+// CellOnPath returns the value last stored into the local variable cell along
+// path (nil when nothing was stored: the zero value).
+func CellOnPath(path []*ssa.BasicBlock, cell *ssa.Alloc) ssa.Value {
+	var last ssa.Value
+	for _, b := range path {
+		for _, ins := range b.Instrs {
+			if st, ok := ins.(*ssa.Store); ok && st.Addr == ssa.Value(cell) {
+				last = st.Val
+			}
+		}
+	}
+	return last
 }
